@@ -181,6 +181,28 @@ def real_all_anchors(root):
 
 # --------------------------------------------------------------------------- running the real search
 
+def separator_of(opts):
+    """the PathSeparators member a case hands to the search: FSLASH / DOT by `fslash`, AUTO when `sep` says so
+    (`--pathsep auto`: what argparse makes of it with PathSeparators.from_str)"""
+    from yamlpath.enums import PathSeparators
+    if opts.get("sep") == "auto":
+        return PathSeparators.AUTO
+    return PathSeparators.FSLASH if opts["fslash"] else PathSeparators.DOT
+
+
+def pathsep_arg(opts):
+    """the --pathsep argument of a case"""
+    return "--pathsep=" + ("auto" if opts.get("sep") == "auto" else "/" if opts["fslash"] else ".")
+
+
+MODEL_OPT_KEYS = ("sv", "sk", "sa", "ika", "iva", "expand", "fslash", "sep")
+
+
+def model_opts(opts):
+    """the options of a C07.search request"""
+    return {k: opts[k] for k in MODEL_OPT_KEYS if k in opts}
+
+
 def impl_search(root, all_anchors, term, opts):
     """The real search_for_paths -> {"paths": [str(path)…]} | {"exc": type, "site": …, "paths": prefix} | {"timeout"}"""
     from yamlpath.commands import yaml_paths as yp
@@ -189,7 +211,7 @@ def impl_search(root, all_anchors, term, opts):
     from yamlpath.eyaml import EYAMLProcessor
     log = core.quiet_logger()
     terms = SearchTerms(term["inv"], PathSearchMethods[term["m"]], "*", term["term"])
-    sep = PathSeparators.FSLASH if opts["fslash"] else PathSeparators.DOT
+    sep = separator_of(opts)
     proc = EYAMLProcessor(log, root)
     out = []
 
@@ -467,6 +489,9 @@ def all_opts():
                     for fs in (False, True):
                         out.append({"sv": sv, "sk": sk, "sa": sa, "ika": ika, "iva": iva, "expand": ex, "fslash": fs,
                                     "km": km, "am": am})
+                    # the third member of PathSeparators the tool accepts: AUTO (renders dot notation)
+                    out.append({"sv": sv, "sk": sk, "sa": sa, "ika": ika, "iva": iva, "expand": ex, "fslash": False,
+                                "sep": "auto", "km": km, "am": am})
     return out
 
 
